@@ -168,22 +168,22 @@ func Run(r *vf.Run) {
 		"text/template", "text/template/parse", "encoding/json", "encoding/binary", "encoding/xml", "go/parser", "go/printer", "go/scanner", "go/token", "regexp", "regexp/syntax", "math/big", "math/rand/v2", "net/url", "slices", "maps", "iter", "context",
 		"sync/atomic", "reflect", "path/filepath", "io/fs", "os/exec", "log", "log/slog", "flag", "hash/crc32", "crypto/sha256", "compress/flate", "archive/tar", "unique", "weak", "runtime/debug", "text/tabwriter", "html/template", "net/netip", "testing/fstest", "database/sql", "expvar", "mime/multipart", "image/png", "index/suffixarray"}
 	if r.Thorough() {
-		units = append(units, unit{name: "std", dir: "/repo", patterns: []string{"std"}})
-		units = append(units, unit{name: "cmd", dir: "/repo", patterns: []string{"cmd/..."}})
+		units = append(units, unit{name: "std", dir: vf.Repo(), patterns: []string{"std"}})
+		units = append(units, unit{name: "cmd", dir: vf.Repo(), patterns: []string{"cmd/..."}})
 	} else {
 		for i := 0; i < len(std); i += 12 {
 			part := std[i:min(len(std), i+12)]
-			units = append(units, unit{name: "std:" + strings.Join(part, ","), dir: "/repo", patterns: part})
+			units = append(units, unit{name: "std:" + strings.Join(part, ","), dir: vf.Repo(), patterns: part})
 		}
 	}
 	// 3. the repository itself
 	if r.Thorough() {
-		units = append(units, unit{name: "repo", dir: "/repo", patterns: []string{"./..."}})
+		units = append(units, unit{name: "repo", dir: vf.Repo(), patterns: []string{"./..."}})
 	} else {
-		units = append(units, unit{name: "repo-slice", dir: "/repo", patterns: []string{"./pattern", "./config", "./unused", "./lintcmd/...", "./analysis/...", "./go/ir/...", "./staticcheck/sa4023", "./staticcheck/sa1019", "./simple/s1008"}})
+		units = append(units, unit{name: "repo-slice", dir: vf.Repo(), patterns: []string{"./pattern", "./config", "./unused", "./lintcmd/...", "./analysis/...", "./go/ir/...", "./staticcheck/sa4023", "./staticcheck/sa1019", "./simple/s1008"}})
 	}
 	// 4. analyzer testdata (copied to scratch with the synthetic go.mod the repo's helper uses)
-	tds := corpus.TestdataDirs("/repo")
+	tds := corpus.TestdataDirs(vf.Repo())
 	if !r.Thorough() {
 		rng := r.Rand("testdata", 0)
 		rng.Shuffle(len(tds), func(i, j int) { tds[i], tds[j] = tds[j], tds[i] })
@@ -227,7 +227,7 @@ func Run(r *vf.Run) {
 			}
 		}
 		if len(okPkgs) > 0 {
-			units = append(units, unit{name: "testdata:" + strings.TrimPrefix(td[0], "/repo/"), dir: dst, patterns: okPkgs})
+			units = append(units, unit{name: "testdata:" + strings.TrimPrefix(td[0], vf.Repo()+"/"), dir: dst, patterns: okPkgs})
 		}
 	}
 
